@@ -487,6 +487,7 @@ def _inline_site(prog: Program, f: FunctionInfo, body, caller: FunctionInfo, cal
         names[nm] = fresh(nm)
     new_body = [_Renamer(names, subst).visit(copy.deepcopy(s)) for s in body]
     tmp = None
+    tail_return = False
     if kind == "assign":
         def on_return(v):
             if isinstance(v, ast.Name) and len(stmt.targets) == 1 and isinstance(stmt.targets[0], ast.Name) and stmt.targets[0].id == v.id:
@@ -517,6 +518,25 @@ def _inline_site(prog: Program, f: FunctionInfo, body, caller: FunctionInfo, cal
                 ast.copy_location(e, stmt)
                 return [e]
             return []
+    elif kind == "temp" and isinstance(stmt, ast.Return) and stmt.value is not None and (
+        stmt.value is call or (isinstance(stmt.value, ast.Tuple) and any(e is call for e in stmt.value.elts) and all(e is call or isinstance(e, (ast.Name, ast.Constant)) for e in stmt.value.elts))
+    ):
+        # ``return a, helper(..)``: every exit of the helper becomes an exit of the caller with the helper's value in place
+        # (the other components are plain names / constants, which the helper's renamed locals cannot change)
+        tail_return = True
+
+        def on_return(v):
+            call._tail_mark = True
+            try:
+                r = copy.deepcopy(stmt)
+            finally:
+                del call._tail_mark
+            val = v if v is not None else ast.Constant(value=None)
+            if getattr(r.value, "_tail_mark", False):
+                r.value = val
+            else:
+                r.value.elts = [val if getattr(e, "_tail_mark", False) else e for e in r.value.elts]
+            return [r]
     else:
         tmp = fresh("ret_" + f.name.strip("_"))
 
@@ -525,7 +545,10 @@ def _inline_site(prog: Program, f: FunctionInfo, body, caller: FunctionInfo, cal
             ast.copy_location(a_, stmt)
             return [a_]
     flat, all_ret = _single_exit(new_body, on_return)
-    if not all_ret and kind != "expr":
+    if tail_return:
+        if not all_ret:
+            flat = flat + on_return(None)
+    elif not all_ret and kind != "expr":
         # a path that reaches the end of the helper without a return yields None: the target gets None first, the
         # returning paths overwrite it
         flat = on_return(None) + flat
@@ -541,7 +564,7 @@ def _inline_site(prog: Program, f: FunctionInfo, body, caller: FunctionInfo, cal
             n._inl = origin
     blk = _block_of(prog, stmt)
     idx = next(i for i, x in enumerate(blk) if x is stmt)
-    if kind in ("assign", "expr"):
+    if kind in ("assign", "expr") or tail_return:
         blk[idx:idx + 1] = pre + flat
     else:
         # replace the call by the temporary inside the statement (or its test)
@@ -822,6 +845,73 @@ def single_exit_form(fn_node: ast.FunctionDef) -> bool:
     return True
 
 
+def _noneness(e) -> Optional[bool]:
+    """True = certainly None, False = certainly not None, None = unknown."""
+    if isinstance(e, ast.Constant):
+        return e.value is None
+    if isinstance(e, (ast.Tuple, ast.List, ast.Dict, ast.Set, ast.JoinedStr, ast.ListComp, ast.DictComp, ast.SetComp)):
+        return False
+    return None
+
+
+def thread_none_tests(fn_node) -> int:
+    """``if c: ..; v = None  else: ..; v = (a, b)`` directly followed by ``if v is not None: S1 [else: S2]``: the second test
+    is decided on every path of the first statement, so S1 / S2 move to the ends of those paths (and ``return v`` right
+    after ``v = (a, b)`` returns the tuple).  This is what a guard-clause helper ``r = self._try(); if r is not None: return r``
+    looks like once the helper is inlined."""
+    done = 0
+
+    def leaves(stmts, var):
+        """-> list of (block, kind) with kind in {True(None), False(not None), 'exit'} or None if undecidable"""
+        if not stmts:
+            return None
+        last = stmts[-1]
+        if isinstance(last, (ast.Return, ast.Raise, ast.Continue, ast.Break)):
+            return [(stmts, "exit")]
+        if isinstance(last, ast.Assign) and len(last.targets) == 1 and isinstance(last.targets[0], ast.Name) and last.targets[0].id == var:
+            k = _noneness(last.value)
+            return None if k is None else [(stmts, k)]
+        if isinstance(last, ast.If) and last.orelse:
+            a, b = leaves(last.body, var), leaves(last.orelse, var)
+            return None if a is None or b is None else a + b
+        return None
+
+    for node in ast.walk(fn_node):
+        for fld in ("body", "orelse", "finalbody"):
+            blk = getattr(node, fld, None)
+            if not (isinstance(blk, list) and blk and isinstance(blk[0], ast.stmt)):
+                continue
+            i = 0
+            while i + 1 < len(blk):
+                a, b = blk[i], blk[i + 1]
+                i += 1
+                if not (isinstance(a, ast.If) and a.orelse and isinstance(b, ast.If)):
+                    continue
+                t = b.test
+                if not (isinstance(t, ast.Compare) and len(t.ops) == 1 and isinstance(t.ops[0], (ast.Is, ast.IsNot)) and isinstance(t.left, ast.Name)
+                        and isinstance(t.comparators[0], ast.Constant) and t.comparators[0].value is None):
+                    continue
+                var = t.left.id
+                lv = leaves([a], var)
+                if lv is None or not any(k != "exit" for _b, k in lv):
+                    continue
+                n_stmts = sum(1 for _ in ast.walk(b))
+                if n_stmts > 200:
+                    continue
+                when_none, when_some = (b.body, b.orelse) if isinstance(t.ops[0], ast.Is) else (b.orelse, b.body)
+                for leaf, k in lv:
+                    if k == "exit":
+                        continue
+                    tail = copy.deepcopy(when_none if k else when_some)
+                    if not k and tail and isinstance(tail[0], ast.Return) and isinstance(tail[0].value, ast.Name) and tail[0].value.id == var:
+                        tail[0].value = copy.deepcopy(leaf[-1].value)
+                    leaf.extend(tail)
+                del blk[i]
+                i -= 1
+                done += 1
+    return done
+
+
 def normalise(prog: Program) -> Tuple[Program, List[str]]:
     """-> (normalised program, names of the helpers that were inlined)."""
     log: List[str] = []
@@ -877,6 +967,12 @@ def normalise(prog: Program) -> Tuple[Program, List[str]]:
         if al:
             changed_alias = True
             log.append(f"{fn.qualname} (container aliases {', '.join(al)} expanded)")
+        if body_hash(fn.node) not in _inventory()[1]:
+            nt = thread_none_tests(fn.node)
+            if nt:
+                ast.fix_missing_locations(fn.node)
+                changed_alias = True
+                log.append(f"{fn.qualname} ({nt} test(s) of a just-assigned None / tuple flag threaded into the assigning branches)")
         ng = unroll_literal_generators(fn.node)
         if ng:
             changed_alias = True
